@@ -224,17 +224,30 @@ def r1_overwrite_lineno(ctx):
     ev = Evaluator(deno)
     rets = [n for n in g.nodes if n.kind == 'stmt' and isinstance(n.ast, ast.Return)]
     # the values handed to the format call
-    fmt = [c for c in ast.walk(f.node) if isinstance(c, ast.Call) and isinstance(c.func, ast.Attribute) and c.func.attr == 'format' and {k.arg for k in c.keywords} >= {'rel', 'abs'}]
-    need(fmt, 'C08.R1: "rel: {rel}, abs: {abs}" formatting not found')
-    for c in fmt:
-        nodes = [n for n in g.nodes_containing(c) if not n.dup]
-        for (n, branches, env) in paths_to(g, nodes, ev):
+    # the values displayed as "rel: <n>, abs: <m>": keyword arguments of a .format call, or the fields of an f-string
+    shown = []       # (host ast node, label, value expr)
+    for c in ast.walk(f.node):
+        if isinstance(c, ast.Call) and isinstance(c.func, ast.Attribute) and c.func.attr == 'format' and {k.arg for k in c.keywords} >= {'rel', 'abs'}:
             for k in c.keywords:
                 if k.arg in ('rel', 'abs'):
-                    val = ev.aeval(k.value, env)
-                    spec_a = parse_spec('Lx - Ld + 1' if k.arg == 'rel' else 'Lx')
-                    rep.ob('C08.R1', ctx.loc(f, c), 'displayed traceback line (%s)' % k.arg, val == spec_a,
-                           '%s = %r' % (k.arg, val) if val == spec_a else 'the displayed %s line evaluates to %r but must be %r' % (k.arg, val, spec_a), anchor=f.qualname)
+                    shown.append((c, k.arg, k.value))
+        if isinstance(c, ast.JoinedStr):
+            label = None
+            for v in c.values:
+                if isinstance(v, ast.Constant) and isinstance(v.value, str):
+                    t = v.value.rstrip()
+                    label = 'rel' if t.endswith('rel:') else ('abs' if t.endswith('abs:') else None)
+                elif isinstance(v, ast.FormattedValue) and label is not None:
+                    shown.append((c, label, v.value))
+                    label = None
+    need({lb for (_, lb, _) in shown} >= {'rel', 'abs'}, 'C08.R1: "rel: {rel}, abs: {abs}" formatting not found')
+    for (c, label, vexpr) in shown:
+        nodes = [n for n in g.nodes_containing(c) if not n.dup]
+        for (n, branches, env) in paths_to(g, nodes, ev):
+            val = ev.aeval(vexpr, env)
+            spec_a = parse_spec('Lx - Ld + 1' if label == 'rel' else 'Lx')
+            rep.ob('C08.R1', ctx.loc(f, c), 'displayed traceback line (%s)' % label, val == spec_a,
+                   '%s = %r' % (label, val) if val == spec_a else 'the displayed %s line evaluates to %r but must be %r' % (label, val, spec_a), anchor=f.qualname)
 
 
 def r1_docstring_start(ctx):
